@@ -747,7 +747,12 @@ def s_trunc(a):
 def _safe_div(a, b):
     from .oblig import safety_nonzero
     safety_nonzero(b, 'tensor division')
-    return s_div(to_real(a) if not is_sym(a) and not isinstance(a, float) else a, b) if (is_sym(a) or is_sym(b)) else (a / b)
+    if is_sym(a) or is_sym(b):
+        return s_div(to_real(a) if not is_sym(a) and not isinstance(a, float) else a, b)
+    if b == 0:                       # torch semantics on concrete values: inf / nan, no exception
+        a = float(a)
+        return float('nan') if (a == 0 or a != a) else math.copysign(float('inf'), a) * (math.copysign(1.0, b) if isinstance(b, float) else 1.0)
+    return a / b
 
 
 def broadcast_shape(a, b):
